@@ -21,9 +21,9 @@ typedef struct { int present[MAXU], val[MAXU]; } model_t;
 static sm_spec_t SP;
 static long n_unlink_head, n_unlink_mid, n_unlink_tail, n_maxchain;
 
-enum { OP_PUT, OP_REMOVE, OP_CLEAR, OP_SCANREMOVE, OP_ALIAS };
+enum { OP_PUT, OP_REMOVE, OP_CLEAR, OP_SCANREMOVE, OP_ALIAS, OP_PUTHUGE };
 typedef struct { int kind, k, v; const char *label; } op_t;
-static op_t OPS[96]; static int NOPS; static long n_scanrm, n_scanrm_next;
+static op_t OPS[128]; static int NOPS; static long n_scanrm, n_scanrm_next;
 static const char *op_label(int op) { return OPS[op].label; }
 static int m_count(const model_t *m) { int c = 0; for (int i = 0; i < U; i++) c += m->present[i]; return c; }
 static int keyid(const char *name) { for (int i = 0; i < U; i++) if (!strcmp(KEYS[i], name)) return i; return -1; }
@@ -127,6 +127,13 @@ static int apply(qhashtbl_t *t, model_t *m, const op_t *op, int check, const cha
             m->present[op->k] = 0; break;
         }
         case OP_CLEAR: t->clear(t); memset(m->present, 0, sizeof m->present); break;
+        case OP_PUTHUGE: {   /* a value size no allocator can satisfy: refused with ENOMEM, nothing changes */
+            char *kb = sm_fresh(KEYS[op->k], kn); static char one[1] = {'x'}; errno = 0;
+            bool r = t->put(t, kb, one, SIZE_MAX / 2); int e = errno; sm_scribble(kb, kn);
+            if (check && r) vc_viol("map:put-huge", "%s: put of a value of SIZE_MAX/2 bytes returned true", after);
+            else if (check && e != ENOMEM) vc_viol("map:put-huge", "%s: put of a value of SIZE_MAX/2 bytes refused with errno %d, not ENOMEM", after, e);
+            break;
+        }
         case OP_ALIAS: {   /* the name argument is the table's own key string (zero-copy getnext of the v-th element): remove(name) / putstr(name, "hello") */
             if (m_count(m) <= op->v) return 1;
             qhashtbl_obj_t o; memset(&o, 0, sizeof o); int n = 0;
@@ -191,6 +198,7 @@ static void setup(void) {
     for (int k = 0; k < U; k++) for (int v = 0; v < NV; v++) OPS[NOPS++] = (op_t){OP_PUT, k, v, VAL[v].kind == 0 ? "qhashtbl_put" : VAL[v].kind == 1 ? "qhashtbl_putstr" : "qhashtbl_putint"};
     for (int k = 0; k < U; k++) OPS[NOPS++] = (op_t){OP_REMOVE, k, 0, "qhashtbl_remove"};
     OPS[NOPS++] = (op_t){OP_CLEAR, 0, 0, "qhashtbl_clear"};
+    for (int k = 0; k < U; k++) OPS[NOPS++] = (op_t){OP_PUTHUGE, k, 0, "qhashtbl_put"};
     for (int j = 1; j <= 3; j++) for (int k = 0; k < U; k++) OPS[NOPS++] = (op_t){OP_SCANREMOVE, k, j, "qhashtbl_getnext"};
     for (int j = 0; j < 2; j++) { OPS[NOPS++] = (op_t){OP_ALIAS, 0, j, "qhashtbl_remove"}; OPS[NOPS++] = (op_t){OP_ALIAS, 1, j, "qhashtbl_putstr"}; OPS[NOPS++] = (op_t){OP_ALIAS, 2, j, "qhashtbl_put"}; }
     snprintf(SP.prefix, sizeof SP.prefix, "hashtbl:%d:%d:%d:", RANGE, U, NV);
